@@ -22,11 +22,23 @@ import (
 func (e *Enc) qfQuery(o *Oblig, extra []Term, getValues []Term) string {
 	var sb strings.Builder
 	sb.WriteString(preamble)
+	keep := func(a Term) bool { return !strings.Contains(a, "(forall ") && !strings.Contains(a, "(exists ") }
 	for _, d := range e.decls {
+		if strings.HasPrefix(d, "(define-fun ") && !keep(d) {
+			// a spec function with a quantified body stays uninterpreted in the weakening
+			if n := parseSx(d); n != nil && len(n.kids) == 5 {
+				var ps []string
+				for _, b := range n.kids[2].kids {
+					if len(b.kids) == 2 {
+						ps = append(ps, b.kids[1].String())
+					}
+				}
+				d = fmt.Sprintf("(declare-fun %s (%s) %s)", n.kids[1].String(), strings.Join(ps, " "), n.kids[3].String())
+			}
+		}
 		sb.WriteString(d)
 		sb.WriteByte('\n')
 	}
-	keep := func(a Term) bool { return !strings.Contains(a, "(forall ") && !strings.Contains(a, "(exists ") }
 	for _, a := range e.finalAxioms() {
 		if keep(a) {
 			sb.WriteString("(assert " + a + ")\n")
